@@ -230,6 +230,7 @@ class Ctx:
         self.extra = {}
         self.deadline = None
         self.search_mode = False
+        self.last_case = None
         self.journal = None     # path: the case being run is journalled so that a hard crash can be attributed
 
     # -- bookkeeping ---------------------------------------------------------------------------
@@ -251,6 +252,7 @@ class Ctx:
         dg = hashlib.sha1(json.dumps(case, sort_keys=True, default=str).encode()).hexdigest()[:16]
         if nontrivial:
             self.distinct.add(dg)
+        self.last_case = case
         if len(self.samples) < 3 or (sample_every and self.evaluations % sample_every == 0 and len(self.samples) < 8):
             self.samples.append(case)
         if self.journal:
